@@ -25,11 +25,17 @@ Definition internalMarshal (J JK : Type) (jenc : base -> lit -> res J) (kenc : b
     let rv := (reflect_ValueOf v) in
     let rt := (rv_Type rv) in
     match loop_ptr (fun rt '(ret, rv) =>
+        if ((rt_named rt) && (Nat.ltb 0 (PointerNum ret))) then
+          LRet (Err E_UNKNOWN_TYPE)
+        else
         let ret := set_PointerNum ret (S (PointerNum ret)) in
         if (rv_IsNil rv) then
           let ret := set_NonNilPointerNum ret ((PointerNum ret) - 1) in
           let rt := rt_Elem rt in
           match loop_ptr (fun rt ret =>
+              if (rt_named rt) then
+                LRet (Err E_UNKNOWN_TYPE)
+              else
               let ret := set_PointerNum ret (S (PointerNum ret)) in
               LCont ret) rt ret with
           | LRet r_ => LRet (r_)
@@ -77,6 +83,9 @@ Definition internalMarshal (J JK : Type) (jenc : base -> lit -> res J) (kenc : b
     else if kind_eqb kind_ KMap then
       let rkt := (rt_Key rt) in
       match loop_ptr (fun rkt ret =>
+          if (rt_named rkt) then
+            LRet (Err E_UNKNOWN_TYPE)
+          else
           let ret := set_MapKeyPointerNum ret (S (MapKeyPointerNum ret)) in
           LCont ret) rkt ret with
       | LRet r_ => r_
@@ -87,6 +96,9 @@ Definition internalMarshal (J JK : Type) (jenc : base -> lit -> res J) (kenc : b
       let ret := set_MapKeyType ret key_ in
       let rvt := (rt_Elem rt) in
       match loop_ptr (fun rvt ret =>
+          if (rt_named rvt) then
+            LRet (Err E_UNKNOWN_TYPE)
+          else
           let ret := set_MapValuePointerNum ret (S (MapValuePointerNum ret)) in
           LCont ret) rvt ret with
       | LRet r_ => r_
@@ -125,6 +137,9 @@ Definition internalMarshal (J JK : Type) (jenc : base -> lit -> res J) (kenc : b
     else if (kind_eqb kind_ KSlice) || (kind_eqb kind_ KArray) then
       let rvt := (rt_Elem rt) in
       match loop_ptr (fun rvt ret =>
+          if (rt_named rvt) then
+            LRet (Err E_UNKNOWN_TYPE)
+          else
           let ret := set_SliceValuePointerNum ret (S (SliceValuePointerNum ret)) in
           LCont ret) rvt ret with
       | LRet r_ => r_
